@@ -51,7 +51,7 @@ def gen_case(streams, tier):
                        awk_exclude=('tmp', 'é'),
                        class_pool=['bit', 'small', 'mid', 'w64'],
                        mem_wide_aw=0.0, mem_aw=(1, 4), rom_aw_max=3, regs=(0, 3), roms=(0, 2),
-                       two_write_ports=0.4, const_quote_prob=0.4)
+                       two_write_ports=0.4, const_quote_prob=0.4, awk_pair_prob=0.3)
     script = gen.gen_script(g, cfg)
     # (not copy / optimized copy: they create MemBlocks, and the process-wide memory id counter,
     # which names the Verilog arrays, is not something the property holds constant)
@@ -73,6 +73,7 @@ def gen_case(streams, tier):
         for _ in range(4):
             c12case = c12.gen_case(streams, tier)
             if c12case.get('fmt') == 'blif':
+                c12case['clock'] = 'clk'       # (render imports with the default clock name)
                 blif = {'text': c12.blif_text(c12case), 'seeds': [f.randrange(1, 1000) for _ in range(3)]}
                 break
     return {'prop': ID, 'script': script, 'init': init, 'kind': kind, 'blif': blif,
